@@ -6,6 +6,7 @@ CONSTANTS
     SrvKinds = {"connclose"}
     Faults = {}
     ClientClose = TRUE
+    Compliant = FALSE
     Bug = {"writeafterseal"}
 SPECIFICATION Spec
 INVARIANTS Pairing NothingAfterClose Released NoStuckCaller SlotsLive OneTerminal
